@@ -563,8 +563,8 @@ impl Check for C19 {
     }
     fn total_cases(&self, tier: Tier) -> u64 {
         match tier {
-            Tier::Quick => 6000,
-            Tier::Thorough => 600_000,
+            Tier::Quick => 30000,
+            Tier::Thorough => 3_000_000,
         }
     }
     fn run_case(&self, ctx: &Ctx, idx: u64, out: &mut Outcome) {
